@@ -2,7 +2,7 @@
    The tables below are REGENERATED from the source on every run (Gen/Status.v, harness/verifh/gen_status.go);
    the theorems are finite computations over them (the whole finite domain, not a sample). *)
 From Coq Require Import List String ZArith Bool.
-From RV Require Import Gen.Status Spec.Front15 Model.Coro.
+From RV Require Import Gen.Status Spec.Front15 Model.Coro Model.Equiv Proofs.PC15.
 Import ListNotations.
 
 (* every status code the kernel defines has a message (StatusCode.String has a case for it) ... *)
@@ -46,3 +46,40 @@ Print Assumptions C15_acquire_success_status.
 Theorem C15_response_status_total : response_status_total = true.
 Proof. vm_compute. reflexivity. Qed.
 Print Assumptions C15_response_status_total.
+
+(* ---------- equivalent HTTP and gRPC requests are translated into the same kernel request ----------
+   http_front / grpc_front (Model/Equiv.v) are the models of the two handler sets (binding rules and explicit checks);
+   the correspondence family "equiv" runs the production HTTP server and the production gRPC handlers (through the
+   protobuf wire format) on the same logical requests and compares what reaches the kernel with these functions. *)
+Theorem C15_equivalent_requests_same_kernel_request :
+  forall l, lreq_wf l = true -> exists q, http_front l = Some q /\ grpc_front l = Some q.
+Proof. exact front_equiv. Qed.
+Print Assumptions C15_equivalent_requests_same_kernel_request.
+
+(* the HTTP front end accepts exactly the well-formed logical requests, and whatever it accepts the gRPC front end
+   translates identically (gRPC accepts more: it does not insist on identifiers being present) *)
+Theorem C15_http_accepts_iff_wf : forall l, lreq_wf l = true <-> http_front l <> None.
+Proof. exact http_accepts_iff_wf. Qed.
+Print Assumptions C15_http_accepts_iff_wf.
+Theorem C15_http_implies_grpc : forall l q, http_front l = Some q -> grpc_front l = Some q.
+Proof. exact http_implies_grpc. Qed.
+Print Assumptions C15_http_implies_grpc.
+
+(* the kernel request is the one the client meant (search: with the documented normalisation of page size and state filter) *)
+Theorem C15_translation_is_faithful :
+  forall q cbid q', http_front (LReq q cbid) = Some q' \/ grpc_front (LReq q cbid) = Some q' -> q' = q.
+Proof. exact front_is_identity. Qed.
+Print Assumptions C15_translation_is_faithful.
+Theorem C15_search_translation : forall idq st tags lim q,
+    http_front (LSearchP idq st tags lim) = Some q \/ grpc_front (LSearchP idq st tags lim) = Some q ->
+    exists sts, search_states st = Some sts /\ q = QSearchPromises idq sts tags (if lim =? 0 then 100 else lim) None /\ nonempty idq = true /\
+                (1 <= (if lim =? 0 then 100 else lim) <= 100)%Z.
+Proof. exact front_search_p. Qed.
+Print Assumptions C15_search_translation.
+
+(* the hypotheses are satisfiable, with the boundary values (ttl 0, counter 1, limit 0) *)
+Example C15_wf_example :
+  lreq_wf (LReq (QClaimTask "t" 1 "p" 0) "") = true /\ lreq_wf (LSearchP "*" 0 [] 0) = true /\
+  http_front (LReq (QClaimTask "t" 1 "p" 0) "") = Some (QClaimTask "t" 1 "p" 0) /\
+  http_front (LSearchP "*" 3 [] 0) = Some (QSearchPromises "*" [Rejected; Timedout; Canceled] [] 100 None).
+Proof. vm_compute. repeat split; reflexivity. Qed.
